@@ -777,11 +777,18 @@ def gen_history(rng):
                 hx = rng.choice(bpool)
                 op = {'op': 'lift', 'hex': hx, 'eip': rng.choice([0, 0x1000]), 'c': c}
                 if rng.random() < 0.3:
-                    op['segm'] = sorted(rng.sample(['es', 'ds', 'fs', 'gs', 'cs', 'ss'], rng.choice([1, 2, 6])))
+                    op['segm'] = sorted(rng.sample(range(6), rng.choice([1, 2, 6])))     # indexes into x86_afs.reg_sg
                 cands = [i for i, h in dis_results if h == hx]
-                if cands and shared:
+                if cands and (shared or rng.random() < 0.5):
                     op['iref'] = rng.choice(cands)
                 ops.append(op)
+                if 'iref' in op and rng.random() < 0.5:
+                    # the same instruction object lifted again, under other options
+                    op2 = dict(op)
+                    op2.pop('segm', None)
+                    if rng.random() < 0.6:
+                        op2['segm'] = sorted(rng.sample(range(6), rng.choice([1, 3, 6])))
+                    ops.append(op2)
             elif y < 0.92:
                 ops.append({'op': 'simp', 'e': pick_expr(), 'shared': shared, 'c': c})
                 expr_results.append(len(ops) - 1)
